@@ -30,11 +30,17 @@ THEOREMS = [
     "MysticVerif.C14.penalty_pos_of_violation",
     "MysticVerif.C14.chain_enforces_margin",
     "MysticVerif.C14.constraint_drives_penalty_to_zero",
+    "MysticVerif.C14.penjoin_and_zero_iff",
+    "MysticVerif.C14.penjoin_or_zero_iff",
+    "MysticVerif.C14.penjoin_nonneg",
+    "MysticVerif.C14.penjoin_or_empty",
 ]
 KEY_BAND = "condition/strict-tolerance-band"
 EQ_TYPES = ["quadratic_equality", "linear_equality", "uniform_equality"]
 IN_TYPES = ["quadratic_inequality", "linear_inequality", "uniform_inequality"]
 INEQ = ("<", "<=", ">", ">=")
+C15_INEQ = ["barrier_inequality", "lagrange_inequality"]
+C15_EQ = ["lagrange_equality"]
 
 
 # ------------------------------------------------------------------ generators
@@ -47,7 +53,7 @@ def gen_case(rng):
                 break
         c13.finalize_point(rng, case)
         case["rels2"] = [(("v", i), cmp, term) for (i, cmp, term) in case["rels"]]
-        case["consts"] = {}
+        case["consts"] = case.get("consts") or {}
         case["drive"] = True
     else:
         regime = rng.choices(["small", "huge", "tiny"], [75, 17, 8])[0]
@@ -55,6 +61,9 @@ def gen_case(rng):
         scheme = c13.gen_scheme(rng, n)
         locs = c13.gen_locals(rng, regime)
         consts = {}
+        rich = regime == "small" and rng.random() < 0.4          # the wider expression language (**, abs, min/max, sqrt, ...)
+        if rich and scheme[0] == "names":
+            scheme = ("names", rng.sample(c13.WORDS, n), scheme[2]) if n <= len(c13.WORDS) else ("base", "x", True)
         if scheme[0] == "base" and rng.random() < 0.3:
             # names bound through locals=; half of the time they shadow a math / numpy name the generated code imports
             n0, n1 = rng.choice([("K0", "K1"), ("K0", "K1"), ("e", "tau"), ("pi", "gamma"), ("K0", "e"), ("euler_gamma", "K1")])
@@ -66,7 +75,10 @@ def gen_case(rng):
         rels2 = []
 
         def term(avail, depth):
-            t = c13.gen_term(rng, avail, depth, regime)
+            if rich and rng.random() < 0.7:
+                t = T.floatify(c13.gen_rich(rng, avail, max(1, depth), consts))
+            else:
+                t = c13.gen_term(rng, avail, depth, regime)
             if consts and rng.random() < 0.4:
                 t = (rng.choice(["+", "*", "-"]), t, ("n", rng.choice(sorted(consts))))
             return t
@@ -82,14 +94,14 @@ def gen_case(rng):
         if regime == "small" and rng.random() < 0.3:
             x = [float(rng.randint(-3, 3)) for _ in range(n)]
         case = {"kind": "cond", "regime": regime, "n": n, "scheme": scheme, "locals": locs, "rels2": rels2,
-                "consts": consts, "x": x, "drive": False}
+                "consts": consts, "x": x, "drive": False, "rich": rich}
         # boundary placement for lines with a single variable on the left that the right-hand side does not read
         tol = (locs or {}).get("tol", 1e-15); rel = (locs or {}).get("rel", 1e-15)
         for (lhs, cmp, rhs) in rels2:
             if lhs[0] == "v" and lhs[1] not in T.term_vars(rhs) and rng.random() < 0.7:
                 try:
-                    r = float(T.py_eval(rhs, x, consts))
-                except (ZeroDivisionError, OverflowError):
+                    r = c13._safe_eval(rhs, x, consts)
+                except (ZeroDivisionError, OverflowError, TypeError, ValueError):
                     continue
                 x[lhs[1]] = c13.place(rng, r, c13.tolf(r, tol, rel), regime)
     # penalty configuration
@@ -107,7 +119,8 @@ def gen_case(rng):
         pt = ([rng.choice(avail_in) for _ in range(n_in)], [rng.choice(avail_eq) for _ in range(n_eq)])
     elif mode == "single":
         pt = rng.choice(avail_in + avail_eq)
-    case.update({"k": k, "h": h, "iter": nit, "ptype": pt, "join": rng.choice([None] * 8 + ["and_", "or_"])})
+    case.update({"k": k, "h": h, "iter": nit, "ptype": pt, "join": rng.choice([None] * 6 + ["and_", "and_", "or_", "or_"]),
+                 "grouping": rng.choice(["pair", "flat", "flat"])})
     return case
 
 
@@ -157,9 +170,18 @@ def run_impl(case):
         obs["pdoc"] = pen.__doc__
         joined = None
         if case["join"]:
-            joined = S.generate_penalty((ineqf, eqf), ptype=ptype, join=getattr(CP, case["join"]), **kwds)
-            parts = [S.generate_penalty(ineqf, ptype=(ptype[0] if isinstance(ptype, tuple) else ptype), **kwds),
-                     S.generate_penalty(eqf, ptype=(ptype[1] if isinstance(ptype, tuple) else ptype), **kwds)]
+            jn = getattr(CP, case["join"])
+            if case.get("grouping", "pair") == "pair":
+                # one member penalty per kind: all inequality lines / all equality lines
+                joined = S.generate_penalty((ineqf, eqf), ptype=ptype, join=jn, **kwds)
+                parts = [S.generate_penalty(ineqf, ptype=(ptype[0] if isinstance(ptype, tuple) else ptype), **kwds),
+                         S.generate_penalty(eqf, ptype=(ptype[1] if isinstance(ptype, tuple) else ptype), **kwds)]
+            else:
+                # one member penalty per line
+                flat_t = (list(ptype[0]) + list(ptype[1])) if isinstance(ptype, tuple) else ptype
+                joined = S.generate_penalty(list(conds), ptype=flat_t, join=jn, **kwds)
+                parts = [S.generate_penalty(c, ptype=(flat_t[q] if isinstance(flat_t, list) else flat_t), **kwds)
+                         for q, c in enumerate(conds)]
     except Exception as exc:
         obs["gen_raises"] = "%s: %s" % (type(exc).__name__, exc)
         return obs
@@ -196,6 +218,8 @@ def run_impl(case):
         if joined is not None:
             try:
                 obs["joined"] = float(joined(list(x))); obs["parts"] = [float(p(list(x))) for p in parts]
+            except OverflowError:
+                obs["joined_overflow"] = True
             except Exception as exc:
                 obs["joined_raises"] = "%s: %s" % (type(exc).__name__, exc)
         # functions generated earlier must keep measuring THEIR text after another text is compiled with the same
@@ -238,14 +262,30 @@ def build_request(case, obs):
     rs = []
     for k in order:
         lhs, cmp, rhs = rels2[k]
-        rs.append("(%s %s %s)" % (T.sexp(T.parse_expr(T.print_expr(lhs, T.xj), consts)), T.CMP_SYM[cmp],
-                                  T.sexp(T.parse_expr(T.print_expr(rhs, T.xj), consts))))
+        # penalty_parser documents that conditions read `mean` / `spread` as numpy's `average` / `ptp` (l.975-981)
+        np_names = lambda src: src.replace("mean(", "average(").replace("spread(", "ptp(")
+        rs.append("(%s %s %s)" % (T.sexp(T.parse_expr(np_names(T.print_expr(lhs, T.xj)), consts)), T.CMP_SYM[cmp],
+                                  T.sexp(T.parse_expr(np_names(T.print_expr(rhs, T.xj)), consts))))
     cs = ["(%s %s %s)" % (nm, pt, T.sexp(e)) for nm, pt, e in zip(names, pts, exprs)]
     kk = case["k"] if case["k"] is not None else 100
     hh = case["h"] if case["h"] is not None else 5
     line = "C14 pen (tol %s) (rel %s) (k %s) (h %s) (n %d) (x %s) (rels (%s)) (conds (%s))" % (
         f2b(tol), f2b(rel), f2b(float(kk)), f2b(float(hh)), case["iter"], fl(obs["point"]), " ".join(rs), " ".join(cs))
-    return line, {"order": order, "ptypes": pts, "names": names, "K": float(kk) * float(hh) ** case["iter"]}
+    info = {"order": order, "ptypes": pts, "names": names, "K": float(kk) * float(hh) ** case["iter"],
+            "inexact": any(T.inexact(e) for e in exprs)}
+    if case.get("join"):
+        cond_s = cs
+        if case.get("grouping", "pair") == "pair":
+            groups = [[q for q, nm in enumerate(names) if nm == "inequality"], [q for q, nm in enumerate(names) if nm != "inequality"]]
+        else:
+            groups = [[q] for q in range(len(names))]
+        info["groups"] = groups
+        gs = " ".join("(" + " ".join(cond_s[q] for q in g) + ")" for g in groups)
+        # the joined penalty is built from fresh member penalties: iteration 0, joining multiplier 1 (coupler.and_/or_ default)
+        info["jline"] = "C14 penj (tol %s) (rel %s) (k %s) (h %s) (n 0) (kj %s) (join %s) (x %s) (groups (%s))" % (
+            f2b(tol), f2b(rel), f2b(float(kk)), f2b(float(hh)), f2b(1.0), case["join"].rstrip("_"), fl(obs["point"]), gs)
+        info["K0"] = float(kk)
+    return line, info
 
 
 # ------------------------------------------------------------------ monitor
@@ -350,10 +390,185 @@ def monitor(case, obs, info):
             if not absorbed:
                 out.append(("drive/penalty-not-zero", "penalty(constraint(x)) = %r at constraint(x)=%r (text %r)" % (pv, x, obs["text"])))
     if "joined" in obs and usable:
-        a, b = obs["parts"]; j = obs["joined"]
-        want = abs(a + b) if case["join"] == "and_" else abs(min(a, b))
-        if not (j == want or (j != j and want != want)):
+        ps = obs["parts"]; j = obs["joined"]
+        want = abs(sum(ps)) if case["join"] == "and_" else abs(min(ps))
+        if not (j == want or (j != j and want != want) or (len(ps) > 2 and math.isfinite(want) and abs(j - want) <= 1e-12 * abs(want))):
             out.append(("penalty/join-%s" % case["join"], "join=%s gives %r, member penalties %r" % (case["join"], j, obs["parts"])))
+        # zero set of the joined penalty (C14.penjoin_and_zero_iff / penjoin_or_zero_iff on the implementation's values)
+        if len(sat) == len(order) and conform and info.get("K0", 0) > 0 and info.get("groups") is not None and j == j:
+            gsat = [all(sat[q][2] for q in g) for g in info["groups"]]
+            big = all(abs(c) > 1e-100 for _, c, s_, _ in sat if not s_) and info["K0"] >= 1e-3
+            if j < 0:
+                out.append(("penalty/join-negative", "join=%s gives %r < 0" % (case["join"], j)))
+            if case["join"] == "and_":
+                if all(gsat) and j != 0.0:
+                    out.append(("penalty/join-and/zero-iff", "every line is satisfied (condition values %r) but the and_-joined penalty is %r" % ([c for _, c, _, _ in sat], j)))
+                if not all(gsat) and big and not (j > 0):
+                    out.append(("penalty/join-and/zero-iff", "a line is violated (condition values %r) but the and_-joined penalty is %r" % ([c for _, c, _, _ in sat], j)))
+            else:
+                if any(gsat) and j != 0.0:
+                    out.append(("penalty/join-or/zero-iff", "all lines of one member are satisfied (condition values %r, members %r) but the or_-joined penalty is %r" %
+                                ([c for _, c, _, _ in sat], info["groups"], j)))
+                if not any(gsat) and big and not (j > 0):
+                    out.append(("penalty/join-or/zero-iff", "every member has a violated line (condition values %r, members %r) but the or_-joined penalty is %r" %
+                                ([c for _, c, _, _ in sat], info["groups"], j)))
+    return out
+
+
+# ------------------------------------------------------------------ barrier / lagrange types through generate_penalty (monitor only)
+class _RefLevel:
+    """an independent reading of one penalty level as documented in mystic/penalty.py (term formula + iteration state)"""
+    DEFAULT_K = {"lagrange_inequality": 20, "lagrange_equality": 20}
+
+    def __init__(self, ptype, cond, k, h):
+        self.t = ptype; self.cond = cond; self.n = 0; self.ys = []
+        self.k = k if k is not None else self.DEFAULT_K.get(ptype, 100)
+        self.h = h if h is not None else 5
+
+    def stored(self, i):
+        try:
+            return self.ys[i]
+        except IndexError:
+            return 0.0
+
+
+def _ref_value(levels, x):
+    """levels[-1] is the outermost decorator; every level returns term + inner(x), or inf without looking further in"""
+    from numpy import log, inf
+    if not levels:
+        return 0.0
+    L = levels[-1]
+    try:
+        c = L.cond(list(x))
+    except ZeroDivisionError:
+        return inf
+    inner = lambda: _ref_value(levels[:-1], x)
+    t = L.t
+    if t == "barrier_inequality":
+        if c > 0:
+            return inf
+        return -.5 / (L.k * pow(L.h, L.n)) * log(-c) + inner()
+    if t == "lagrange_equality":
+        lam = 0.; k = L.k
+        for i in range(L.n):
+            lam += 2. * k * L.stored(i); k *= L.h
+        return float(k) * c ** 2 + lam * c + inner()
+    if t == "lagrange_inequality":
+        beta = 0.; k = L.k
+        for i in range(L.n):
+            beta += 2. * k * max(-beta / (2. * k), L.stored(i)); k *= L.h
+        m = max(-beta / (2. * k), c)
+        return float(k) * m ** 2 + beta * m + inner()
+    K = L.k * pow(L.h, L.n)
+    if t == "quadratic_equality":
+        return float(K) * c ** 2 + inner()
+    if t == "linear_equality":
+        return float(K) * abs(c) + inner()
+    if t == "quadratic_inequality":
+        return float(2 * K) * max(0., c) ** 2 + inner()
+    return float(2 * K) * abs(max(0., c)) + inner()          # linear_inequality
+
+
+def _ref_store(levels, x, i):
+    from numpy import inf
+    for L in reversed(levels):                                 # outermost first; a lagrange level resolves i for the inner ones
+        if L.t.startswith("lagrange"):
+            try:
+                y = L.cond(list(x))
+            except ZeroDivisionError:
+                y = inf
+            if i is None:
+                i = L.n
+            if i >= len(L.ys):
+                L.ys.extend([0.] * (i - len(L.ys)) + [y])
+            else:
+                L.ys[i] = y
+
+
+def run_c15types(rng):
+    """generate_penalty with ptype = barrier_inequality / lagrange_(in)equality (mixed with quadratic / linear types):
+    value = the documented per-line terms, iteration state through pen.iter() / pen.store() / pen.clear()"""
+    from mystic import symbolic as S, penalty as P
+    n = rng.choice([2, 3, 4, 5])
+    m = rng.choice([1, 2, 2, 3])
+    idx = list(range(n))
+    rels2 = []
+    for _ in range(m):
+        lhs = ("v", rng.choice(idx)) if rng.random() < 0.6 else c13.gen_term(rng, idx, 1, "small")
+        rhs = c13.gen_term(rng, idx, rng.choice([0, 1]), "small")
+        both = T.deint(("-", lhs, rhs))
+        rels2.append((both[1], rng.choice(c13.CMPS), both[2]))
+    case = {"scheme": ("base", "x", True), "rels2": rels2, "n": n}
+    text = case_text(case)
+    k = rng.choice([None, 1, 20, 100, 2.5]); h = rng.choice([None, 2, 5]) if k is not None else None
+    pts_in = [rng.choice(C15_INEQ + C15_INEQ + IN_TYPES[:2]) for r in rels2 if r[1] in INEQ]
+    pts_eq = [rng.choice(C15_EQ + C15_EQ + EQ_TYPES[:2]) for r in rels2 if r[1] not in INEQ]
+    ops = []
+    for _ in range(rng.choice([3, 4, 5, 6])):
+        o = rng.choice(["eval", "eval", "iter", "iter", "store", "clear", "iterto"])
+        if o in ("eval", "store"):
+            ops.append((o, [rng.choice([float(rng.randint(-3, 3)), rng.randint(-16, 16) / 4.0, rng.uniform(-5, 5)]) for _ in range(n)]))
+        elif o == "iterto":
+            ops.append((o, rng.choice([0, 1, 2, 3])))
+        else:
+            ops.append((o, None))
+    ops.append(("eval", [rng.uniform(-3, 3) for _ in range(n)]))
+    case.update({"text": text, "k": k, "h": h, "ptype": [pts_in, pts_eq], "ops": ops})
+    out = {"case": case, "findings": [], "tag": "ok"}
+    kwds = {}
+    if k is not None:
+        kwds["k"] = k
+    if h is not None:
+        kwds["h"] = h
+    try:
+        with warnings.catch_warnings():
+            warnings.simplefilter("ignore")
+            ineqf, eqf = S.generate_conditions(text, nvars=n)
+            mk = lambda: S.generate_penalty((ineqf, eqf), ptype=(tuple(getattr(P, t) for t in pts_in), tuple(getattr(P, t) for t in pts_eq)), **kwds)
+            pen = mk()
+            conds = list(ineqf) + list(eqf)
+            levels = [_RefLevel(t, c, k, h) for t, c in zip(pts_in + pts_eq, conds)]
+            trace = []
+            for o, a in ops:
+                if o == "eval":
+                    got = float(pen(list(a))); want = float(_ref_value(levels, a))
+                    trace.append((o, a, got, want))
+                    same = (got == want) or (got != got and want != want) or (math.isfinite(got) and math.isfinite(want) and abs(got - want) <= 1e-12 * abs(want))
+                    if not same:
+                        out["findings"].append(("c15types/value", "generate_penalty(%r, ptype=%r, k=%r, h=%r) after %r gives %r at %r; the documented per-line terms give %r" %
+                                                (text, [pts_in, pts_eq], k, h, [q[0] for q in trace[:-1]], got, a, want)))
+                        break
+                elif o == "iter":
+                    pen.iter()
+                    for L in levels:
+                        L.n += 1
+                    trace.append((o,))
+                elif o == "iterto":
+                    pen.iter(a)
+                    for L in levels:
+                        L.n = a
+                    trace.append((o, a))
+                elif o == "store":
+                    pen.store(list(a)); _ref_store(levels, a, None)
+                    trace.append((o, a))
+                else:
+                    pen.clear()
+                    for L in levels:
+                        L.n = 0; L.ys = []
+                    trace.append((o,))
+                    xq = ops[-1][1]
+                    got = float(pen(list(xq))); fresh = float(mk()(list(xq)))
+                    if not (got == fresh or (got != got and fresh != fresh)):
+                        out["findings"].append(("c15types/clear", "after clear() the penalty of %r gives %r at %r, a freshly generated one %r" % (text, got, xq, fresh)))
+                        break
+            if pen.iteration() != (levels[-1].n if levels else 0):
+                out["findings"].append(("c15types/iteration", "pen.iteration() = %r, expected %r after %r" % (pen.iteration(), levels[-1].n, [q[0] for q in trace])))
+    except ZeroDivisionError:
+        out["tag"] = "zerodiv"
+    except OverflowError:
+        out["tag"] = "overflow"
+    except Exception as exc:
+        out["findings"].append(("c15types/raises", "generate_penalty(%r, ptype=%r) / %r raised %s: %s" % (text, [pts_in, pts_eq], [o for o, _ in ops], type(exc).__name__, exc)))
     return out
 
 
@@ -373,13 +588,44 @@ def check_case(case, obs, rep, info, hist=None):
         bad = [obs["conds"][k] for k, b in enumerate(r[1]["recog"]) if b != "true"]
         fs.append(Finding("correspondence", "recogniseCond/rejected", "emitted condition(s) %r are not what the text's line must produce (recog=%r)" % (bad, r[1]["recog"]), cdesc))
     mc = r[1]["cvals"]
+    numpy_inf = False
     for k, (m, c) in enumerate(zip(mc, obs["cvals"])):
-        if m == "raises" or not isinstance(c, float):
+        if m == "raises" and isinstance(c, float) and not math.isfinite(c):
+            bump(hist, "condition:raises-vs-numpy-inf"); numpy_inf = True      # numpy scalars divide by zero without raising
+        elif m == "raises" or not isinstance(c, float):
             if not (m == "raises" and c == "raises"):
                 fs.append(Finding("correspondence", "condition/diverges", "condition %d: model %r impl %r" % (k, m, c), cdesc))
         elif not same_float(b2f(m), c):
-            fs.append(Finding("correspondence", "condition/diverges", "condition %r: model %r impl %r" % (obs["conds"][k][1], b2f(m), c), cdesc))
+            if info.get("inexact") and math.isfinite(c) and abs(b2f(m) - c) <= 1e-6 * (1 + abs(c)):
+                bump(hist, "condition:toleranced-inexact-fn")
+            else:
+                fs.append(Finding("correspondence", "condition/diverges", "condition %r: model %r impl %r" % (obs["conds"][k][1], b2f(m), c), cdesc))
     mp = b2f(r[1]["pen"])
+    jrep = info.get("jreply")
+    if jrep is not None and not numpy_inf and "joined" in obs:
+        jr = parse_reply(jrep)
+        if jr[0] != "ok":
+            fs.append(Finding("correspondence", "penj/model-%s" % jr[0], "model replied %r" % (jrep,), cdesc))
+        elif jr[1]["res"] != "value":
+            fs.append(Finding("correspondence", "penalty-join/diverges", "model raises, implementation gives %r" % (obs["joined"],), cdesc))
+        else:
+            mj = b2f(jr[1]["pen"]); ij = obs["joined"]
+            mparts = [b2f(v) for v in jr[1]["parts"]]
+            quad = any(p.startswith("quadratic") for p in info["ptypes"])
+            def near(a, b, rt):
+                return same_float(a, b) or (math.isfinite(a) and math.isfinite(b) and
+                                            (abs(a - b) <= rt * abs(a) or (info.get("inexact") and abs(a - b) <= 1e-6 * (1 + abs(a)))))
+            if same_float(mj, ij) and all(same_float(a, b) for a, b in zip(mparts, obs["parts"])):
+                bump(hist, "join:%s:%s:bit-exact" % (case["join"], case.get("grouping")))
+            elif (quad or len(mparts) > 2 or info.get("inexact")) and near(mj, ij, 1e-12) and all(near(a, b, 1e-12) for a, b in zip(mparts, obs["parts"])):
+                bump(hist, "join:%s:toleranced" % case["join"])       # c**2 via C pow / python's compensated sum of > 2 members
+            else:
+                fs.append(Finding("correspondence", "penalty-join/diverges", "join=%s (%s): model %r members %r, implementation %r members %r" %
+                                  (case["join"], case.get("grouping"), mj, mparts, ij, obs["parts"]), cdesc))
+    elif jrep is not None and "joined_raises" in obs:
+        fs.append(Finding("correspondence", "penalty-join/diverges", "implementation raised %s" % obs["joined_raises"], cdesc))
+    if numpy_inf:
+        return fs
     if "pen_overflow" in obs:
         bump(hist, "pen:overflow")
         if math.isfinite(mp):
@@ -392,6 +638,8 @@ def check_case(case, obs, rep, info, hist=None):
             quad = any(p.startswith("quadratic") for p in info["ptypes"])
             if quad and math.isfinite(mp) and abs(mp - obs["pen"]) <= 1e-14 * abs(mp):
                 bump(hist, "pen:toleranced-pow")
+            elif info.get("inexact") and math.isfinite(mp) and abs(mp - obs["pen"]) <= 1e-6 * (1 + abs(mp)):
+                bump(hist, "pen:toleranced-inexact-fn")
             else:
                 fs.append(Finding("correspondence", "penalty/diverges", "penalty model=%r impl=%r" % (mp, obs["pen"]), cdesc))
     return fs
@@ -415,14 +663,30 @@ def run_shard(pid, seed, shard, ncases, tier, extra):
         if line is None:
             findings.append(Finding("correspondence", "translator/untranslatable", str(info), {"case": case, "impl": obs}))
             continue
-        for key, what in monitor(case, obs, info):
+        with warnings.catch_warnings():
+            warnings.simplefilter("ignore")
+            mon = monitor(case, obs, info)
+        for key, what in mon:
             findings.append(Finding("monitor", key, what, {"case": case, "impl": obs}))
         info["line"] = line
         items.append((case, obs, len(lines), info)); lines.append(line)
+        if info.get("jline"):
+            info["jidx"] = len(lines); lines.append(info["jline"])
+    c15_items = []
+    for k in range(max(4, ncases // 8)):
+        rng = case_rng(PID + "/c15types", seed, shard, k)
+        c15 = run_c15types(rng)
+        bump(hist, "c15types:" + c15["tag"])
+        for key, what in c15["findings"]:
+            findings.append(Finding("monitor", key, what, {"case": c15["case"]}))
     replies = leandrv.run_driver(lines)
     nontrivial = 0
     for case, obs, li, info in items:
+        if info.get("jidx") is not None:
+            info["jreply"] = replies[info["jidx"]]
         fs = check_case(case, obs, replies[li], info, hist)
+        if case.get("rich"):
+            bump(hist, "rich-terms")
         findings.extend(fs)
         for (_, cmp, _) in case["rels2"]:
             bump(hist, "cmp:" + T.CMP_SYM[cmp])
@@ -493,8 +757,11 @@ def replay(path):
     line, info = build_request(case, obs)
     mon = monitor(case, obs, info) if line else []
     if line:
-        rep = leandrv.run_driver([line])[0]
+        reps = leandrv.run_driver([line] + ([info["jline"]] if info.get("jline") else []))
+        rep = reps[0]
         print("model:", rep)
+        if info.get("jline"):
+            info["jreply"] = reps[1]; print("model (join):", reps[1])
         info["line"] = line
         for f in check_case(case, obs, rep, info):
             print("CORRESPONDENCE %s: %s" % (f["class_key"], f["what"])); rc = 1
